@@ -177,7 +177,7 @@ Section Par1Safety.
     - pose proof (read_volume_np b q) as HV.
       destruct (read_volume md5 b) as [v|x|q']; [|apply IH|cbn [fst]; congruence].
       repeat lazymatch goal with
-             | |- fst (if ?c then _ else _) <> _ => destruct c; [cbn [fst]; discriminate|]
+             | |- fst (if ?c then _ else _) <> _ => destruct c; [first [cbn [fst]; discriminate | apply IH]|]
              end.
       apply IH.
     - destruct x; try (cbn [fst]; discriminate). apply IH.
@@ -377,7 +377,8 @@ Section Par1Safety.
     - destruct (io_read (volume_path ix (N.of_nat (S i))) st) as [[b|x|q] st1] eqn:ER.
       + pose proof (io_read_ok_nf _ _ _ _ ER) as N1.
         destruct (read_volume md5 b) as [v|x|q]; [| |discriminate H].
-        * repeat lazymatch type of H with (if ?c then _ else _) = _ => destruct c; [discriminate H|] end.
+        * repeat lazymatch type of H with (if ?c then _ else _) = _ =>
+                   destruct c; [first [discriminate H | eapply nf_trans; [exact N1|eapply IH; exact H]]|] end.
           eapply nf_trans; [exact N1|eapply IH; exact H].
         * eapply nf_trans; [exact N1|eapply IH; exact H].
       + destruct x; try discriminate H.
@@ -394,7 +395,7 @@ Section Par1Safety.
     destruct (negb (v_number v =? 0)); [discriminate H|].
     destruct (load_data md5 ix (filter saved (v_entries v)) st1) as [[ds|x|q] st2] eqn:EL; try discriminate H.
     destruct ds as [|d0 ds]; [discriminate H|].
-    destruct (256 <=? v_count v); [discriminate H|].
+    match type of H with context [if 256 <=? ?n then _ else _] => destruct (256 <=? n) end; [discriminate H|].
     match type of H with context [load_vols md5 ix ?a ?i ?n ?sz ?acc st2] =>
       destruct (load_vols md5 ix a i n sz acc st2) as [[[slots size]|x|q] st3] eqn:EV end; try discriminate H.
     injection H as _ <-.
